@@ -112,6 +112,15 @@ def negotiatedResp (r : Registry) (pm : List (Option Bytes)) (accept : List Byte
   | some m => (negotiatedReq r pm).map (fun _ => m)
   | none => negotiatedReq r pm
 
+/-- SSE is negotiated when no Accept line names a registered type and one of them is exactly `text/event-stream`. -/
+def negotiatedSSE (r : Registry) (accept : List Bytes) : Bool :=
+  (accept.findSome? r.lookup).isNone && accept.contains eventStream
+
+/-- The content type of a successful response: `text/event-stream` when SSE is negotiated, else the negotiated
+    marshaler's. (An error status is always in the marshaler's type: it is one plain document, not an event.) -/
+def successType (r : Registry) (accept : List Bytes) (m : Marshaler) : Bytes :=
+  if negotiatedSSE r accept then eventStream else m.mime
+
 /-! ### the shape of a rendered failure -/
 
 /-- What the client can decode from the body (the harness decodes with a full resolver). -/
